@@ -418,7 +418,12 @@ func c10HistoryWitnessMain(args []string) {
 			sess.Ops = []Op{{Kind: "load", S: 0}, {Kind: "load", S: 0}}
 		} else {
 			sess.Docs = []string{m.Key.Doc}
-			sess.Ops = []Op{{Kind: "load", S: 0}, {Kind: "first", S: 0, D: 0}, {Kind: "query", S: 0, D: 0}}
+			sess.NamedDocs = m.Key.DocName != ""
+			sess.Ops = []Op{{Kind: "load", S: 0}, {Kind: "first", S: 0, D: 0}, {Kind: "query", S: 0, D: 0}, {Kind: "fresh", S: 0, D: 0}}
+		}
+		for i := range sess.Ops {
+			// clock and randomness (if the library uses any): one stream per operation
+			sess.Ops[i].Clock = &ClockJ{Seed: uint64(0xa11 + i*0x1111), Mode: int32(2 + i%2)}
 		}
 		rp := &c10Replay{Format: "verif-c10-replay/2", Property: "C10", Session: sess, Replay: true,
 			Note: "one schema text, one document text, one fresh process: the second evaluation on the same schema object differs from the first"}
